@@ -119,6 +119,7 @@ type HGenesis struct {
 	Funds      int64    `json:"funds"`    // per account, of each tenant denom
 	BigFunds   bool     `json:"big_funds,omitempty"` // 10^30 of each tenant denom instead (deposits above 2^63)
 	Nft        bool     `json:"nft"`      // deploy the ERC-721 contract in block 1 (from account NAccts-1)
+	Erc20      bool     `json:"erc20,omitempty"` // deploy an ERC-20 contract in block 1 and register it as a token pair: denomination pairDenom
 }
 
 type History struct {
@@ -140,6 +141,26 @@ func (h History) JSON() string {
 }
 
 var tenantDenoms = []string{"utok", "utwo"}
+
+// pairDenom stands in histories (and in the model) for the coin denomination of the registered ERC-20 token pair,
+// "erc20/<contract address>", which is known only once the contract is deployed. A tenant of this denomination is
+// paid out through x/erc20's ConvertERC20: its treasury is the treasury address's TOKEN balance.
+const pairDenom = "erc20/pair"
+
+var erc20MinterZ = new(big.Int).Sub(two160, big.NewInt(2)) // where the model takes minted tokens from
+
+func (e *Exec) realDenom(d string) string {
+	if d == pairDenom && e.erc20Denom != "" {
+		return e.erc20Denom
+	}
+	return d
+}
+func (e *Exec) histDenom(d string) string {
+	if e.erc20Denom != "" && d == e.erc20Denom {
+		return pairDenom
+	}
+	return d
+}
 
 // ---------- execution ----------
 
@@ -226,6 +247,8 @@ type Exec struct {
 	commits  map[string]string // hash -> commit (hex)
 	faulty   *FaultPlan
 	nftOwner Acct
+	erc20Addr  common.Address
+	erc20Denom string
 	nextTok  uint64
 	gasPrices []sdk.DecCoin
 	oracleFee sdk.Dec
@@ -394,7 +417,7 @@ func (e *Exec) toSdkMsg(m Msg) sdk.Msg {
 	}
 	switch m.Kind {
 	case "create_tenant":
-		return settlementtypes.NewMsgCreateTenant(snd(), m.Denom, m.Period)
+		return settlementtypes.NewMsgCreateTenant(snd(), e.realDenom(m.Denom), m.Period)
 	case "create_tenant_mc":
 		return settlementtypes.NewMsgCreateTenantWithMintableContract(acct(m.Sender).Bech(), m.Denom, m.Period, "")
 	case "add_admin":
@@ -404,10 +427,10 @@ func (e *Exec) toSdkMsg(m Msg) sdk.Msg {
 	case "update_period":
 		return settlementtypes.NewMsgUpdateTenantPayoutPeriod(snd(), m.Tid, m.Period)
 	case "deposit":
-		return settlementtypes.NewMsgDepositToTreasury(acct(m.Sender).Bech(), m.Tid, sdk.Coin{Denom: m.Denom, Amount: amt()})
+		return settlementtypes.NewMsgDepositToTreasury(acct(m.Sender).Bech(), m.Tid, sdk.Coin{Denom: e.realDenom(m.Denom), Amount: amt()})
 	case "record":
 		e.noteReq(m.Tid, reqBytes(m))
-		return settlementtypes.NewMsgRecord(acct(m.Sender).Bech(), m.Tid, string(reqBytes(m)), sdk.Coin{Denom: m.Denom, Amount: amt()}, m.Chain, m.Contract, m.Tok, "")
+		return settlementtypes.NewMsgRecord(acct(m.Sender).Bech(), m.Tid, string(reqBytes(m)), sdk.Coin{Denom: e.realDenom(m.Denom), Amount: amt()}, m.Chain, m.Contract, m.Tok, "")
 	case "cancel":
 		e.noteReq(m.Tid, reqBytes(m))
 		return settlementtypes.NewMsgCancel(snd(), m.Tid, string(reqBytes(m)))
@@ -485,6 +508,18 @@ func (e *Exec) applyEnv(v Env) (string, error) {
 		// does not hold among its balances (only tenant denominations are compared)
 		_ = pool
 		return fmt.Sprintf("EO (EnvPoolFund %s %s)", cStr(v.Denom), cZ(amt.BigInt())), nil
+	case "erc20_mint":
+		// tokens minted to a tenant's treasury (the tenant sells something for tokens); in the model a transfer
+		// from an inexhaustible minter account
+		amt, _ := sdk.NewIntFromString(v.Amount)
+		tid := uint64(-1 - v.To)
+		e.trackTreasury(tid, pairDenom)
+		coq := fmt.Sprintf("ES (EnvBankSend %s %s %s %s)", cZ(erc20MinterZ), cZ(treasuryInt(tid)), cStr(pairDenom), cZ(amt.BigInt()))
+		if !amt.IsPositive() {
+			return coq, nil
+		}
+		to := common.BytesToAddress(settlementtypes.GetTenantTreasuryAccount(tid).Bytes())
+		return coq, c.MintERC20(e.nftOwner, e.erc20Addr, to, amt.BigInt())
 	case "nft_mint":
 		tok := e.nextTok
 		if err := c.MintNFT(e.nftOwner, c.NftAddr, c.Accts[v.To].Hex()); err != nil {
@@ -586,6 +621,13 @@ func (e *Exec) Run() []Obs {
 				if _, err := c.DeployNFT(e.nftOwner); err != nil {
 					panic(fmt.Sprintf("deploy nft: %v", err))
 				}
+			}
+			if c.Height == 1 && e.H.Genesis.Erc20 {
+				addr, denom, err := c.DeployAndRegisterERC20(e.nftOwner)
+				if err != nil {
+					panic(fmt.Sprintf("deploy erc20: %v", err))
+				}
+				e.erc20Addr, e.erc20Denom = addr, denom
 			}
 			log := ""
 			var applied []string
@@ -755,7 +797,7 @@ func (e *Exec) snapshot() *Snapshot {
 	s := &Snapshot{Height: c.Height}
 	sk := c.App.SettlementKeeper
 	for _, t := range sk.GetAllTenants(ctx) {
-		ts := TenantSnap{Id: t.Id, Denom: t.Denom, Period: t.PayoutPeriod, Method: methodCode(t.PayoutMethod)}
+		ts := TenantSnap{Id: t.Id, Denom: e.histDenom(t.Denom), Period: t.PayoutPeriod, Method: methodCode(t.PayoutMethod)}
 		for _, a := range t.Admins {
 			addr, err := sdk.AccAddressFromBech32(a)
 			if err != nil {
@@ -768,12 +810,15 @@ func (e *Exec) snapshot() *Snapshot {
 		for _, d := range tenantDenoms {
 			e.trackTreasury(t.Id, d)
 		}
+		if e.erc20Denom != "" {
+			e.trackTreasury(t.Id, pairDenom)
+		}
 		if t.PayoutMethod == settlementtypes.PayoutMethod_MintContract && t.ContractAddress != "" {
 			e.sbt[t.Id] = common.HexToAddress(t.ContractAddress)
 		}
 	}
 	for _, u := range sk.GetAllUTXRWithTenantAndID(ctx) {
-		us := UtxrSnap{Tid: u.TenantId, Id: u.Id, Req: []byte(u.Utxr.RequestId), Denom: u.Utxr.Amount.Denom, Amount: u.Utxr.Amount.Amount.BigInt(), Created: u.Utxr.CreatedAt}
+		us := UtxrSnap{Tid: u.TenantId, Id: u.Id, Req: []byte(u.Utxr.RequestId), Denom: e.histDenom(u.Utxr.Amount.Denom), Amount: u.Utxr.Amount.Amount.BigInt(), Created: u.Utxr.CreatedAt}
 		if u.Utxr.Nft != nil {
 			us.Chain = u.Utxr.Nft.ChainId
 			us.Contract = addrInt(u.Utxr.Nft.ContractAddr.Bytes())
@@ -782,7 +827,7 @@ func (e *Exec) snapshot() *Snapshot {
 		for _, r := range u.Utxr.Recipients {
 			a := addrInt(r.Address.Bytes())
 			us.Recips = append(us.Recips, GenRecipSnap{Addr: a, Weight: r.Weight})
-			e.track(a, u.Utxr.Amount.Denom)
+			e.track(a, e.histDenom(u.Utxr.Amount.Denom))
 			for tid := range e.sbt {
 				e.track(a, fmt.Sprintf("sbt:%d", tid))
 			}
@@ -822,7 +867,12 @@ func (e *Exec) snapshot() *Snapshot {
 			} else {
 				addr = sdk.AccAddress(common.BigToAddress(a).Bytes())
 			}
-			amt = c.App.BankKeeper.GetBalance(ctx, addr, tr[1]).Amount.BigInt()
+			if tr[1] == pairDenom && a.Cmp(two160) >= 0 {
+				// the treasury of a token-pair tenant is its TOKEN balance; recipients are paid in coins
+				amt = c.ERC20Balance(e.erc20Addr, common.BytesToAddress(addr.Bytes()))
+			} else {
+				amt = c.App.BankKeeper.GetBalance(ctx, addr, e.realDenom(tr[1])).Amount.BigInt()
+			}
 		}
 		s.Bals = append(s.Bals, [3]string{tr[0], tr[1], amt.String()})
 	}
@@ -916,7 +966,7 @@ func FilterForTenant(h History, tid uint64) History {
 		case "begin":
 			e2 := Event{Kind: "begin"}
 			for _, v := range ev.Envs {
-				if v.Kind == "bank_send" && v.To < 0 && uint64(-1-v.To) != tid {
+				if (v.Kind == "bank_send" || v.Kind == "erc20_mint") && v.To < 0 && uint64(-1-v.To) != tid {
 					continue
 				}
 				e2.Envs = append(e2.Envs, v)
